@@ -187,6 +187,18 @@ func init() {
 		w.acquire(th, so.vc)
 		return nil
 	})
+	reg("(*sync.RWMutex).TryRLock", func(w *World, th *Thread, fn *ssa.Function, args []Value) Value {
+		so := w.syncObjFor(args[0].(Ptr), "mutex")
+		if !w.visible(th, &pendingOp{kind: opYield, so: so, reader: true, desc: "RWMutex.TryRLock"}) {
+			return blocked
+		}
+		if so.locked {
+			return false
+		}
+		so.readers++
+		w.acquire(th, so.vc)
+		return true
+	})
 	reg("(*sync.RWMutex).RUnlock", func(w *World, th *Thread, fn *ssa.Function, args []Value) Value {
 		so := w.syncObjFor(args[0].(Ptr), "mutex")
 		if !w.visible(th, &pendingOp{kind: opYield, so: so, reader: true, desc: "RWMutex.RUnlock"}) {
